@@ -1506,7 +1506,7 @@ func matchType(pkg *Package, arg *internal.Elem, param types.Type, at any) error
 	switch t := param.(type) {
 	case *types.Named:
 		if t2, ok := arg.Type.(*types.Basic); ok {
-			if t == pkg.utBigInt {
+			if t == pkg.utBigInt && arg.CVal != nil { // an untyped non-constant (1 << n) has no value
 				switch t2.Kind() {
 				case types.UntypedInt:
 					val, _ := new(big.Int).SetString(arg.CVal.ExactString(), 10)
